@@ -2,7 +2,7 @@ SPECIFICATION Spec
 CONSTANTS
   MaxPrep = 2
   NP = 2
-  MaxLen = 5
+  MaxLen = 4
   MaxBad = 1
   KeepOnFailure = FALSE
 INVARIANTS TypeOK UsedMatchesHistory Isolated UnknownFails MalformedFails FailedLeavesUnset NoBoundBetweenCommands
